@@ -18,10 +18,6 @@ def main():
     out_path = os.path.join(VERIF, "seeded", "MATRIX.json")
     res = json.load(open(out_path)) if os.path.exists(out_path) else {}
     head = sh("git -C /repo rev-parse --short HEAD").stdout.strip()
-    keep = os.path.join(VERIF, ".evidence-keep")
-    evdir = os.path.join(VERIF, "evidence")
-    shutil.rmtree(keep, ignore_errors=True)
-    shutil.copytree(evdir, keep)
     try:
         for name in names:
             d = os.path.join(VERIF, "seeded", name)
@@ -36,7 +32,7 @@ def main():
                     res[name] = {"property": prop, "repo_head": head, "status": "patch no longer applies: " + r.stdout[-200:]}
                     print(name, "patch does not apply")
                     continue
-                env = dict(os.environ, VERIF_REPO=wt)
+                env = dict(os.environ, VERIF_REPO=wt, VERIF_OUT_DIR="/tmp/verif-tool-out")
                 c = sh("./check %s quick" % prop, cwd=VERIF, env=env)
                 caught = "VIOLATION property=" in c.stdout
                 kinds = sorted(set(re.findall(r"^--- ([a-z0-9-]+):", c.stdout, re.M)))[:4]
@@ -47,9 +43,7 @@ def main():
                 shutil.rmtree(wt, ignore_errors=True)
             json.dump(res, open(out_path, "w"), indent=1, sort_keys=True)
     finally:
-        shutil.rmtree(os.path.join(VERIF, "replays"), ignore_errors=True)
-        shutil.rmtree(evdir, ignore_errors=True)
-        shutil.move(keep, evdir)
+        shutil.rmtree("/tmp/verif-tool-out", ignore_errors=True)
     sh("git -C /repo worktree prune")
 
 
